@@ -458,3 +458,21 @@ def run(ctx: lib.Ctx) -> None:
         elif direct_bad:
             rep.update({'program': direct_bad[0][0], 'observed': repr(direct_bad[0][1])})
         ctx.violation('implementation no longer corresponds to the model the theorems are about', rep, found=False)
+
+
+def replay(ctx: lib.Ctx, doc: dict) -> bool:
+    """./check C21 --replay file : re-run the recorded program(s); True (exit 1) if the deviation persists."""
+    text = doc.get('program')
+    if not text:
+        return False
+    obs = run_text(text)
+    print('observed now:', repr(obs)[:600])
+    if doc.get('other_program'):
+        other = run_text(doc['other_program'])
+        print('other side  :', repr(other)[:600])
+        return obs != other or obs[0] != 'ok'
+    if 'expected' in doc:
+        got = ('fail',) if obs[0] == 'fail' else (obs[1][:2] if obs[0] == 'ok' and obs[1][0] == 'fr' else (obs[1] if obs[0] == 'ok' else obs))
+        print('expected    :', doc['expected'][:600])
+        return repr(got)[:500] != doc['expected'] and repr(obs) != doc['expected']
+    return False
